@@ -79,6 +79,16 @@ def check(prop, tier, seed, only=None, jobs=None, verbose=False):
         j["property"] = prop
         j.setdefault("params", {})
         j["params"]["known"] = known_classes
+    # size the tier by total wall time: scale partition budgets so that the worst case
+    # (every partition uses its whole budget) stays within VERIF_QUICK_MIN / VERIF_THOROUGH_MIN minutes
+    nworkers = jobs or int(os.environ.get("VERIF_JOBS", "0") or 0) or (os.cpu_count() or 4)
+    cap_min = float(os.environ.get("VERIF_THOROUGH_MIN", "50") if tier == "thorough" else os.environ.get("VERIF_QUICK_MIN", "6"))
+    total = sum(float(j.get("budget", 60)) for j in jobs_list)
+    if total > 0 and total / nworkers > cap_min * 60:
+        f = cap_min * 60 * nworkers / total
+        for j in jobs_list:
+            j["budget"] = max(20.0, float(j.get("budget", 60)) * f)
+        say("note: partition budgets scaled by %.2f to keep the %s tier within about %.0f min" % (f, tier, cap_min))
     rnd = random.Random(seed)
     # longest budgets first, ties shuffled by seed
     rnd.shuffle(jobs_list)
